@@ -15,8 +15,11 @@ BIN_DIR="$(dirname "$(rustup which --toolchain nightly rustc)")/../lib/rustlib/x
 COVOUT="$VERIF/coverage_out"; rm -rf "$COVOUT"; mkdir -p "$COVOUT/prof" "$COVOUT/scratch"
 export CARGO_NET_OFFLINE=true
 cd "$H" || exit 2
+# (build scripts of the instrumented build would drop default_*.profraw files into their working directory, /repo among them)
+export LLVM_PROFILE_FILE="$COVOUT/prof/build-%p-%m.profraw"
 RUSTFLAGS="-Cinstrument-coverage" cargo +nightly build --offline --release -p vmon --target-dir "$H/target/cov" 2>&1 | tail -2
 RUSTFLAGS="-Cinstrument-coverage" cargo +nightly build --offline --release -p vmon --no-default-features --features b_ibig --target-dir "$H/target/cov_nopar" 2>&1 | tail -2
+rm -f "$COVOUT"/prof/build-*.profraw
 for id in "${IDS[@]}"; do
     LLVM_PROFILE_FILE="$COVOUT/prof/$id-%p-%m.profraw" "$H/target/cov/release/vmon" "$id" --tier "$TIER" --seed "${VERIF_SEED:-1}" \
         --verif-dir "$VERIF" --out-dir "$COVOUT/scratch" >"$COVOUT/$id.log" 2>&1
